@@ -297,4 +297,316 @@ theorem malloc_inv (cfg : Cfg) (ok : CfgOK cfg) (h : Heap) (n : Nat) (hi : HInv 
           unfold availOf at hlim'
           split at hlim' <;> omega
 
+
+theorem cnt_insUp (x : Nat) (N : Chunk) (l : List Chunk) : cnt x (insUp N l) = cnt x l + hasN x N := by
+  cases l with
+  | nil => simp [insUp]
+  | cons fp1 rest =>
+    simp only [insUp]
+    split
+    · rename_i h; simp only [cnt_cons, hasN_merge x N fp1 h]; omega
+    · simp only [cnt_cons]; omega
+
+theorem cnt_mergeDown (x : Nat) (fp2 : Chunk) (l : List Chunk) :
+    cnt x (mergeDown fp2 l) = hasN x fp2 + cnt x l := by
+  cases l with
+  | nil => simp [mergeDown]
+  | cons new tl =>
+    simp only [mergeDown]
+    split
+    · rename_i h; simp only [cnt_cons, hasN_merge x fp2 new h]; omega
+    · simp only [cnt_cons]
+
+theorem cnt_freeWalk (x : Nat) (N : Chunk) (fp2 : Chunk) (rest : List Chunk) :
+    cnt x (freeWalk N fp2 rest) = hasN x fp2 + cnt x rest + hasN x N := by
+  induction rest generalizing fp2 with
+  | nil => simp [freeWalk, cnt_mergeDown]
+  | cons fp1 r ih =>
+    simp only [freeWalk]
+    split
+    · simp only [cnt_cons, ih]; omega
+    · simp only [cnt_mergeDown, cnt_insUp, cnt_cons]; omega
+
+theorem lowerBrk_spec (brk : Nat) (l : List Chunk) :
+    (lowerBrk brk l = (l, brk) ∧ ∀ f, l.getLast? = some f → f.1 + 8 + f.2 ≠ brk) ∨
+    ∃ l' f, l = l' ++ [f] ∧ f.1 + 8 + f.2 = brk ∧ lowerBrk brk l = (l', f.1) := by
+  induction l with
+  | nil => left; simp [lowerBrk]
+  | cons f r ih =>
+    cases r with
+    | nil =>
+      simp only [lowerBrk]
+      split
+      · right; exact ⟨[], f, by simp, by assumption, rfl⟩
+      · left; simp; assumption
+    | cons g r =>
+      simp only [lowerBrk]
+      rcases ih with ⟨h1, h2⟩ | ⟨l', f', h1, h2, h3⟩
+      · left; rw [h1]; simp; simpa using h2
+      · right; refine ⟨f :: l', f', by simp [h1], h2, by rw [h3]⟩
+
+/-- a chunk made of (merged) chunks of `S`: its address and its end are the
+address / end of members of `S`, and its size is well-formed -/
+def Made (S : List Chunk) (y : Chunk) : Prop :=
+  (∃ g ∈ S, y.1 = g.1) ∧ (∃ g ∈ S, y.1 + 8 + y.2 = g.1 + 8 + g.2) ∧ 8 ≤ y.2 ∧ y.2 % 8 = 0
+
+theorem Made.base {S : List Chunk} {c : Chunk} (hc : c ∈ S) (h8 : 8 ≤ c.2) (hm : c.2 % 8 = 0) : Made S c :=
+  ⟨⟨c, hc, rfl⟩, ⟨c, hc, rfl⟩, h8, hm⟩
+
+theorem Made.merge {S : List Chunk} {a b : Chunk} (ha : Made S a) (hb : Made S b) (h : a.1 + 8 + a.2 = b.1) :
+    Made S (a.1, a.2 + (b.2 + 8)) := by
+  obtain ⟨a1, _, a3, a4⟩ := ha
+  obtain ⟨_, ⟨g, hg, hg'⟩, b3, b4⟩ := hb
+  refine ⟨a1, ⟨g, hg, ?_⟩, ?_, ?_⟩ <;> simp only <;> omega
+
+theorem insUp_made {S : List Chunk} {N : Chunk} {l : List Chunk} (hN : Made S N)
+    (hl : ∀ g ∈ l, Made S g) : ∀ y ∈ insUp N l, Made S y := by
+  cases l with
+  | nil => simp [insUp]; exact hN
+  | cons fp1 rest =>
+    intro y hy
+    simp only [insUp] at hy
+    split at hy
+    · rename_i h
+      rcases List.mem_cons.1 hy with rfl | hy
+      · exact hN.merge (hl fp1 (by simp)) h
+      · exact hl y (by simp [hy])
+    · rcases List.mem_cons.1 hy with rfl | hy
+      · exact hN
+      · exact hl y hy
+
+theorem mergeDown_made {S : List Chunk} {fp2 : Chunk} {l : List Chunk} (h2 : Made S fp2)
+    (hl : ∀ g ∈ l, Made S g) : ∀ y ∈ mergeDown fp2 l, Made S y := by
+  cases l with
+  | nil => simp [mergeDown]; exact h2
+  | cons new tl =>
+    intro y hy
+    simp only [mergeDown] at hy
+    split at hy
+    · rename_i h
+      rcases List.mem_cons.1 hy with rfl | hy
+      · exact h2.merge (hl new (by simp)) h
+      · exact hl y (by simp [hy])
+    · rcases List.mem_cons.1 hy with rfl | hy
+      · exact h2
+      · exact hl y hy
+
+theorem freeWalk_made {S : List Chunk} {N fp2 : Chunk} {rest : List Chunk} (hN : Made S N)
+    (h2 : Made S fp2) (hl : ∀ g ∈ rest, Made S g) : ∀ y ∈ freeWalk N fp2 rest, Made S y := by
+  induction rest generalizing fp2 with
+  | nil =>
+    simp only [freeWalk]
+    exact mergeDown_made h2 (by simpa using hN)
+  | cons fp1 r ih =>
+    simp only [freeWalk]
+    split
+    · intro y hy
+      rcases List.mem_cons.1 hy with rfl | hy
+      · exact h2
+      · exact ih (hl fp1 (by simp)) (fun g hg => hl g (by simp [hg])) y hy
+    · exact mergeDown_made h2 (insUp_made hN hl)
+
+
+theorem insUp_sorted {N fp1 : Chunk} {r : List Chunk} (hs : (fp1 :: r).Pairwise Below)
+    (h : N.1 + 8 + N.2 ≤ fp1.1) : (insUp N (fp1 :: r)).Pairwise Below := by
+  rw [List.pairwise_cons] at hs
+  simp only [insUp]
+  split
+  · rw [List.pairwise_cons]
+    refine ⟨fun y hy => ?_, hs.2⟩
+    have := hs.1 y hy; unfold Below at *; simp only; omega
+  · rw [List.pairwise_cons, List.pairwise_cons]
+    refine ⟨fun y hy => ?_, hs⟩
+    rcases List.mem_cons.1 hy with rfl | hy
+    · unfold Below; omega
+    · have := hs.1 y hy; unfold Below at *; omega
+
+/-- head and tail of `insUp` -/
+theorem insUp_shape (N fp1 : Chunk) (r : List Chunk) :
+    ∃ c tl, insUp N (fp1 :: r) = c :: tl ∧ c.1 = N.1 ∧ (∀ y ∈ tl, y ∈ fp1 :: r) := by
+  simp only [insUp]
+  split
+  · exact ⟨_, _, rfl, rfl, fun y hy => List.mem_cons_of_mem _ hy⟩
+  · exact ⟨_, _, rfl, rfl, fun y hy => hy⟩
+
+theorem mergeDown_sorted {fp2 c : Chunk} {tl : List Chunk} (hs : (c :: tl).Pairwise Below)
+    (h1 : fp2.1 + 8 + fp2.2 ≤ c.1) (h2 : ∀ y ∈ tl, Below fp2 y) : (mergeDown fp2 (c :: tl)).Pairwise Below := by
+  simp only [mergeDown]
+  rw [List.pairwise_cons] at hs
+  split
+  · rw [List.pairwise_cons]
+    refine ⟨fun y hy => ?_, hs.2⟩
+    have := hs.1 y hy; unfold Below at *; simp only; omega
+  · rw [List.pairwise_cons, List.pairwise_cons]
+    refine ⟨fun y hy => ?_, hs⟩
+    rcases List.mem_cons.1 hy with rfl | hy
+    · unfold Below; omega
+    · exact h2 y hy
+
+theorem freeWalk_sorted {N fp2 : Chunk} {rest : List Chunk} (hs : (fp2 :: rest).Pairwise Below)
+    (h2 : fp2.1 < N.1) (hd : ∀ f ∈ fp2 :: rest, f.1 + 8 + f.2 ≤ N.1 ∨ N.1 + 8 + N.2 ≤ f.1)
+    (hN : 8 ≤ N.2 ∧ N.2 % 8 = 0) (hw : ∀ f ∈ fp2 :: rest, 8 ≤ f.2 ∧ f.2 % 8 = 0) :
+    (freeWalk N fp2 rest).Pairwise Below := by
+  induction rest generalizing fp2 with
+  | nil =>
+    simp only [freeWalk]
+    refine mergeDown_sorted (by simp) ?_ (by simp)
+    have := hd fp2 (by simp); omega
+  | cons fp1 r ih =>
+    simp only [freeWalk]
+    have hs' := hs
+    rw [List.pairwise_cons] at hs
+    split
+    · rename_i hlt
+      rw [List.pairwise_cons]
+      refine ⟨fun y hy => ?_, ih hs.2 hlt (fun f hf => hd f (List.mem_cons_of_mem _ hf))
+        (fun f hf => hw f (List.mem_cons_of_mem _ hf))⟩
+      have hm := freeWalk_made (S := N :: fp1 :: r) (N := N) (fp2 := fp1) (rest := r)
+        (Made.base (by simp) hN.1 hN.2) (Made.base (by simp) (hw fp1 (by simp)).1 (hw fp1 (by simp)).2)
+        (fun g hg => Made.base (by simp [hg]) (hw g (by simp [hg])).1 (hw g (by simp [hg])).2) y hy
+      obtain ⟨⟨g, hg, hga⟩, _⟩ := hm
+      unfold Below
+      rcases List.mem_cons.1 hg with rfl | hg
+      · have := hs.1 fp1 (by simp); unfold Below at this; omega
+      · have := hs.1 g hg; unfold Below at this; omega
+    · rename_i hge
+      have hf1 := hd fp1 (by simp)
+      have hw1 := (hw fp1 (by simp)).1
+      have h3 : N.1 + 8 + N.2 ≤ fp1.1 := by omega
+      obtain ⟨c, tl, he, hc1, htl⟩ := insUp_shape N fp1 r
+      have hsU := insUp_sorted hs.2 h3
+      rw [he] at hsU ⊢
+      refine mergeDown_sorted hsU ?_ (fun y hy => hs.1 y (htl y hy))
+      have := hd fp2 (by simp); omega
+
+
+theorem hasN_le_cnt {x c l} (hm : c ∈ l) : hasN x c ≤ cnt x l := by
+  induction l with
+  | nil => cases hm
+  | cons d l ih =>
+    rcases List.mem_cons.1 hm with rfl | h
+    · simp
+    · have := ih h; simp; omega
+
+/-- under the tiling, a free and a live chunk do not overlap -/
+theorem HInv.disj_free_live {cfg h} (hi : HInv cfg h) {f c : Chunk} (hf : f ∈ h.flp) (hc : c ∈ h.live) :
+    f.1 + 8 + f.2 ≤ c.1 ∨ c.1 + 8 + c.2 ≤ f.1 := by
+  apply disj_of_hasN
+  intro x
+  have := hi.tile x
+  have := hasN_le_cnt (x := x) hf
+  have := hasN_le_cnt (x := x) hc
+  split at * <;> omega
+
+theorem free_inv (cfg : Cfg) (h : Heap) (p : Nat) (r : Res) (hi : HInv cfg h) (hr : free h p = some r) :
+    HInv cfg r.h := by
+  unfold free at hr
+  split at hr
+  · cases hr
+  rename_i hp8
+  simp only at hr
+  split at hr
+  · cases hr
+  rename_i sz hl
+  have hN := lookup_mem hl
+  obtain ⟨hN8, hNm, hNa⟩ := hi.wfL _ hN
+  simp only at hN8 hNm hNa
+  have hNfin := hi.fin_le_brk (Or.inr hN)
+  simp only at hNfin
+  have hdis : ∀ f ∈ h.flp, f.1 + 8 + f.2 ≤ p - 8 ∨ p - 8 + 8 + sz ≤ f.1 := fun f hf => hi.disj_free_live hf hN
+  have hwfL' : ∀ c ∈ remove (p - 8) h.live, 8 ≤ c.2 ∧ c.2 % 8 = 0 ∧ c.1 % 8 = 0 :=
+    fun c hc => hi.wfL c (mem_remove hc)
+  have htile : ∀ x, cnt x h.flp + (cnt x (remove (p - 8) h.live) + hasN x (p - 8, sz)) = if x < h.brk then 1 else 0 := by
+    intro x; have := hi.tile x; have := cnt_remove (x := x) hl; omega
+  -- every chunk of the new free list is made of N and old free chunks
+  have hS : ∀ g ∈ (p - 8, sz) :: h.flp, 8 ≤ g.2 ∧ g.2 % 8 = 0 ∧ g.1 % 8 = 0 ∧ g.1 + 8 + g.2 ≤ h.brk := by
+    intro g hg
+    rcases List.mem_cons.1 hg with rfl | hg
+    · exact ⟨hN8, hNm, hNa, hNfin⟩
+    · have := hi.wfF g hg; exact ⟨this.1, this.2.1, this.2.2, hi.fin_le_brk (Or.inl hg)⟩
+  have hMadeWf : ∀ y, Made ((p - 8, sz) :: h.flp) y → 8 ≤ y.2 ∧ y.2 % 8 = 0 ∧ y.1 % 8 = 0 ∧ y.1 + 8 + y.2 ≤ h.brk := by
+    intro y ⟨⟨g, hg, hga⟩, ⟨g', hg', hgf⟩, h8, hm⟩
+    have := hS g hg; have := hS g' hg'
+    refine ⟨h8, hm, ?_, ?_⟩ <;> omega
+  split at hr
+  · -- empty free list
+    rename_i hflp
+    split at hr
+    · rename_i htop
+      cases hr
+      refine ⟨fun x => ?_, by simp, by simp, by simp, hwfL', by simp only; omega, fun hl => ?_⟩
+      · have := htile x; simp only [hflp, cnt_nil, hasN] at *; split at this <;> split at this <;> split <;> omega
+      · have := hi.lim hl; simp only; omega
+    · rename_i htop
+      cases hr
+      refine ⟨fun x => ?_, by simp, ?_, ?_, hwfL', hi.brk8, hi.lim⟩
+      · have := htile x; simp only [hflp, cnt_nil, cnt_cons] at *; omega
+      · intro f hf; simp only [List.mem_singleton] at hf; subst hf; simp only; omega
+      · intro c hc; simp only [List.mem_singleton] at hc; subst hc; exact ⟨hN8, hNm, hNa⟩
+  · rename_i fp1 rest hflp
+    rw [hflp] at hdis hS htile hMadeWf
+    have hsorted := hi.sorted
+    rw [hflp] at hsorted
+    split at hr
+    · -- walk, then possibly lower the break
+      rename_i hlt
+      cases hr
+      simp only
+      have hsl := freeWalk_sorted (N := (p - 8, sz)) hsorted hlt hdis ⟨hN8, hNm⟩
+        (fun f hf => ⟨(hS f (List.mem_cons_of_mem _ hf)).1, (hS f (List.mem_cons_of_mem _ hf)).2.1⟩)
+      have hmade := freeWalk_made (S := (p - 8, sz) :: fp1 :: rest) (N := (p - 8, sz)) (fp2 := fp1) (rest := rest)
+        (Made.base (by simp) hN8 hNm)
+        (Made.base (by simp) (hS fp1 (by simp)).1 (hS fp1 (by simp)).2.1)
+        (fun g hg => Made.base (by simp [hg]) (hS g (by simp [hg])).1 (hS g (by simp [hg])).2.1)
+      have hcw := fun x => cnt_freeWalk x (p - 8, sz) fp1 rest
+      generalize freeWalk (p - 8, sz) fp1 rest = l at *
+      rcases lowerBrk_spec h.brk l with ⟨he, hlast⟩ | ⟨l', f, he1, he2, he3⟩
+      · rw [he]; simp only
+        refine ⟨fun x => ?_, hsl, fun y hy hyb => ?_, fun c hc => ?_, hwfL', hi.brk8, hi.lim⟩
+        · have := htile x; have := hcw x; simp only [cnt_cons] at *; omega
+        · -- a chunk ending at the break would be the last one
+          simp only at hyb
+          obtain ⟨l1, l2, rfl⟩ := List.append_of_mem hy
+          have hl2 : l2 = [] := by
+            cases l2 with
+            | nil => rfl
+            | cons z l2 =>
+              exfalso
+              rw [List.pairwise_append] at hsl
+              have hb := (List.pairwise_cons.1 hsl.2.1).1 z (by simp)
+              have := hMadeWf z (hmade z (by simp))
+              unfold Below at hb; omega
+          subst hl2
+          exact hlast y (by simp) hyb
+        · have := hMadeWf c (hmade c hc); exact ⟨this.1, this.2.1, this.2.2.1⟩
+      · rw [he3]; simp only
+        subst he1
+        rw [List.pairwise_append] at hsl
+        have hf := hMadeWf f (hmade f (by simp))
+        refine ⟨fun x => ?_, hsl.1, fun y hy => ?_, fun c hc => ?_, hwfL', hf.2.2.1, fun hl => ?_⟩
+        · have h1 := htile x; have h2 := hcw x; simp only [cnt_cons, cnt_append, cnt_nil] at h1 h2 ⊢
+          have hx : hasN x f = if f.1 ≤ x ∧ x < h.brk then 1 else 0 := by unfold hasN; rw [he2]
+          split at hx <;> split at h1 <;> split <;> omega
+        · have := hsl.2.2 y hy f (by simp); unfold Below at this; simp only; omega
+        · have := hMadeWf c (hmade c (by simp [hc])); exact ⟨this.1, this.2.1, this.2.2.1⟩
+        · have := hi.lim hl; simp only; omega
+    · -- new head of the free list
+      rename_i hge
+      cases hr
+      simp only
+      have h1 := hdis fp1 (by simp)
+      have h1w := hS fp1 (by simp)
+      have hmade := insUp_made (S := (p - 8, sz) :: fp1 :: rest) (N := (p - 8, sz)) (l := fp1 :: rest)
+        (Made.base (by simp) hN8 hNm)
+        (fun g hg => Made.base (by simp [List.mem_cons.1 hg]) (hS g (List.mem_cons_of_mem _ hg)).1 (hS g (List.mem_cons_of_mem _ hg)).2.1)
+      refine ⟨fun x => ?_, insUp_sorted hsorted (by simp only; omega), fun y hy hyb => ?_, fun c hc => ?_,
+        hwfL', hi.brk8, hi.lim⟩
+      · have := htile x; have := cnt_insUp x (p - 8, sz) (fp1 :: rest); simp only [cnt_cons] at *; omega
+      · obtain ⟨_, ⟨g, hg, hgf⟩, _⟩ := hmade y hy
+        simp only at hyb
+        rcases List.mem_cons.1 hg with rfl | hg
+        · simp only at hgf; omega
+        · have := hi.notTop g (by rw [hflp]; exact hg); omega
+      · have := hMadeWf c (hmade c hc); exact ⟨this.1, this.2.1, this.2.2.1⟩
+
 end Igris.C10
